@@ -81,5 +81,27 @@ def argAxis {α} (pick : List α → List Label → α) (a : DimArray α) (ax : 
                    vals := { shape := o.vals.shape.eraseIdx pos, get := fun j => pick (fibre o pos j) labels }
                    vkind := maybeCastKind .i axd.kind, attrs := o.attrs })
 
+/-- `argmin()` / `argmax()` over the WHOLE array (`axis=None` branch of `transform.argmin` / `argmax`): the tuple of
+labels, one per dimension, at NumPy's flat arg-position.
+```
+obj, idx, name = _deal_with_axis(self, None)                    # (self, None, None)
+res = apply_along_axis(obj, 'argmin', axis=None, skipna=skipna)  # func(obj.values, axis=None): flat row-major position
+res = np.unravel_index(res, obj.shape)
+return tuple(obj.axes[i].values[v] for i, v in enumerate(res))
+```
+As in `argAxis`, `pick cells table` stands for "the entry of `table` at NumPy's arg-position of `cells`" (the theorems
+instantiate it with `pickLabel argp lab`, `argp` being the abstract position function; the driver with the symbolic
+cell `Cell.arg`).  For dimension `i` the table lists, for every flat position `p` of the row-major cell list, the label
+that the code returns for it: the label of axis `i` at component `i` of `np.unravel_index(p, shape)`.  NumPy refuses an
+empty array (ValueError: attempt to get argmin of an empty sequence). -/
+def argWhole {α} (pick : List α → List Label → α) (a : DimArray α) : Except Err (List α) := do
+  let (o, _) ← dealWithAxis a .none
+  let cells := o.vals.toList
+  if cells.isEmpty then .error .value else
+  pure (o.axes.zipIdx.map fun (ax, i) =>
+    let labels := if ax.members.isEmpty then ax.labels else []
+    pick cells ((List.range cells.length).map fun p =>
+      labels.getD ((unravel o.vals.shape p).getD i 0) Label.none))
+
 end Lib
 end DimModel
